@@ -166,3 +166,9 @@ Print Assumptions c07_every_pep440_rendering_fixed_point.
 Print Assumptions c07_extended_canonical_semver_unchanged.
 Print Assumptions c07_semver_rendering_of_pep440_fixed_point.
 Print Assumptions c07_render_pep440_to_semver_fixed_point.
+
+(* THE TIE OF THE MODEL'S CONSTANT TABLES TO THE SOURCE: Gen/TablesSrc.v is regenerated from /repo by tools/tables2coq.py on every run *)
+From ZV Require Import Timestamp Render Convert TablesSrc TablesTie.
+Theorem c07_label_spellings_as_in_source : forall s, label_try s = lookup_label src_label_alternatives (map ascii_lower s).
+Proof. exact label_try_as_source. Qed.
+Print Assumptions c07_label_spellings_as_in_source.
